@@ -37,7 +37,6 @@ fn r_centered(r: (u128, u128), n: (u128, u128)) -> (u128, u128) {
     if r_lt(h, r) { r_sub(r, n) } else { r }
 }
 
-static mut P_MOD: [u64; 4] = [0; 4];
 static mut P_PROD: [u64; 4] = [0; 4];
 
 fn sp_set_mul<const M0: u64, const M1: u64, const M2: u64, const M3: u64>(
@@ -58,6 +57,14 @@ fn sp_set_mul<const M0: u64, const M1: u64, const M2: u64, const M3: u64>(
     this.0 = r;
 }
 
+fn sp_is_native() -> bool {
+    true
+}
+
+fn sp_is_native_no() -> bool {
+    false
+}
+
 // smul_trunc(f): self*f normalized around 0, truncated to three words.  With
 // the product r = f*self mod n supplied by the stub: the result must be the
 // low three words of the centered representative of r.
@@ -67,6 +74,21 @@ fn smul_trunc_spec<const M0: u64, const M1: u64, const M2: u64, const M3: u64>()
     let s = ModInt256::<M0, M1, M2, M3>(x);
     let got = s.smul_trunc(&f);
     let n = r_join(&[M0, M1, M2, M3]);
+    if sp_is_native() {
+        // native playback (no stub): the product is the real one, obtained
+        // independently of smul_trunc through from_i128 / Montgomery decoding;
+        // outside the documented precondition there is nothing to check
+        let fi = ((f[0] as u128) | ((f[1] as u128) << 64)) as i128;
+        let mut p = ModInt256::<M0, M1, M2, M3>::from_i128(fi);
+        p.set_mul(&s);
+        p.set_montyred();
+        let c = r_centered(r_join(&p.0), n);
+        let top = (c.1 as i128) >> 63;
+        if !(r_lt(r_join(&x), n) && (top == 0 || top == -1)) {
+            return;
+        }
+        unsafe { P_PROD = p.0; }
+    }
     let c = r_centered(r_join(unsafe { &P_PROD }), n);
     assert!(got[0] == c.0 as u64);
     assert!(got[1] == (c.0 >> 64) as u64);
@@ -111,6 +133,7 @@ macro_rules! parts_harness { ($smul:ident, $norm:ident, $zero:ident, $m0:expr, $
     #[kani::stub(crate::backend::w64::addcarry_u64, sp_addcarry_u64)]
     #[kani::stub(crate::backend::w64::subborrow_u64, sp_subborrow_u64)]
     #[kani::stub(crate::backend::w64::modint::ModInt256::set_mul, sp_set_mul)]
+    #[kani::stub(sp_is_native, sp_is_native_no)]
     fn $smul() {
         smul_trunc_spec::<{ $m0 }, { $m1 }, { $m2 }, { $m3 }>();
     }
